@@ -19,18 +19,52 @@ def check(ctx, src):
     hr = src.py(HR)
     s = mo.func("Symbol.__new__")
     ctx.require(s is not None, "Symbol.__new__ not found")
-    g = next((n for n in s.body if isinstance(n, ast.If)), None)
-    ctx.check(g is not None and norm(g.test) == "not from_parser", "CTOR-SYMBOL", f"{MO}|Symbol.__new__|guard", f"validation runs under `{norm(g.test) if g else None}`; it must run for every non-parser input", MO, s.lineno,
-              witness="Symbol('NaN') succeeds although reading NaN gives a Float", detail="not from_parser")
-    t = flat(g) if g is not None else ""
-    ctx.check(g is not None and pm.find(g, "sym = as_identifier(s)\nif not isinstance(sym, Symbol):\n    raise ValueError(___)\nreturn sym") is not None, "CTOR-SYMBOL", f"{MO}|Symbol.__new__|via as_identifier", "Symbol must be validated by as_identifier and rejected unless that yields a Symbol", MO, s.lineno, detail="as_identifier(s) must be a Symbol")
-    ctx.check("from hy.reader.hy_reader import as_identifier" in t, "CTOR-SYMBOL", f"{MO}|Symbol.__new__|same function", "the validator is not the reader's as_identifier", MO, s.lineno, detail="imported from hy.reader.hy_reader")
+    # Symbol: as_identifier(s) is called exactly when the string does not come from the parser, and its result decides
+    def helpers_of(fn, depth=2):
+        out, todo = [fn], [(fn, 0)]
+        while todo:
+            f, d = todo.pop()
+            if d >= depth:
+                continue
+            for c in pyq.calls(f):
+                h = mo.func(c.func.id) if isinstance(c.func, ast.Name) else None
+                if h is not None and h not in out:
+                    out.append(h)
+                    todo.append((h, d + 1))
+        return out
+
+    ai_calls = [c for fn in helpers_of(s) for c in pyq.calls(fn) if dotted(c.func) == "as_identifier"]
+    ctx.need(len(ai_calls) >= 1, "Symbol.__new__ no longer validates through as_identifier")
+    aic = ai_calls[0]
+    at = pyq.atoms(aic, s)
+    only_parser = len(at) == 1 and at[0] == "not from_parser"
+    ctx.decide("CTOR-SYMBOL", f"{MO}|Symbol.__new__|guard", only_parser if mo.enclosing_func(aic) is s else None,
+               f"validation runs under `{[str(a) for a in at]}`; it must run for every non-parser input (and only under that condition)", MO, s.lineno,
+               witness="Symbol('NaN') succeeds although reading NaN gives a Float", detail="not from_parser")
+    g = pyq.stmt_of(aic) if hasattr(pyq, "stmt_of") else None
+    fn_ai = mo.enclosing_func(aic)
+    ctx.check(pm.find(fn_ai, "sym = as_identifier(s)\nif not isinstance(sym, Symbol):\n    raise ValueError(___)\nreturn sym") is not None,
+              "CTOR-SYMBOL", f"{MO}|Symbol.__new__|via as_identifier", "Symbol must be validated by as_identifier and rejected unless that yields a Symbol", MO, s.lineno, detail="as_identifier(s) must be a Symbol")
+    imp = any(isinstance(n, ast.ImportFrom) and n.module == "hy.reader.hy_reader" and any(a.name == "as_identifier" for a in n.names) for fn in helpers_of(s) for n in ast.walk(fn)) \
+        or any(isinstance(n, ast.ImportFrom) and n.module == "hy.reader.hy_reader" and any(a.name == "as_identifier" for a in n.names) for n in mo.tree.body)
+    ctx.decide("CTOR-SYMBOL", f"{MO}|Symbol.__new__|same function", imp, "the validator is not the reader's as_identifier", MO, s.lineno, detail="imported from hy.reader.hy_reader")
     k = mo.func("Keyword.__init__")
     ctx.require(k is not None, "Keyword.__init__ not found")
-    t = flat(k)
-    ctx.check(pm.find(k, "if not from_parser:\n    ...\n    if value and ('.' in value or any((isnormalizedspace(c) for c in value)) or HyReader.NON_IDENT.intersection(value)):\n        raise ValueError(___)") is not None, "CTOR-KEYWORD", f"{MO}|Keyword.__init__|predicate",
-              "the keyword validity predicate changed", MO, k.lineno, witness="Keyword('a b') or Keyword('a.b') succeeds although `:a b` / `:a.b` do not read as that keyword", detail="'.', whitespace, NON_IDENT")
-    ctx.check("from hy.reader.hy_reader import HyReader" in t and "from hy.reader.reader import isnormalizedspace" in t, "CTOR-KEYWORD", f"{MO}|Keyword.__init__|same objects", "the predicates are not the reader's own objects", MO, k.lineno, detail="HyReader.NON_IDENT, isnormalizedspace")
+    # Keyword: the rejecting test uses the reader's own predicates (isnormalizedspace, HyReader.NON_IDENT) and the dot
+    kfns = helpers_of(k)
+    ktext = " ".join(str(flat(fn)) for fn in kfns)
+    uses_ws = any(isinstance(c, ast.Call) and dotted(c.func) == "isnormalizedspace" for fn in kfns for c in ast.walk(fn))
+    uses_ni = "HyReader.NON_IDENT" in ktext
+    uses_dot = "'.' in" in ktext
+    other_ws = [c for fn in kfns for c in ast.walk(fn) if isinstance(c, ast.Call) and isinstance(c.func, ast.Attribute) and c.func.attr in ("isspace", "strip", "split")]
+    raises = [r for fn in kfns for r in ast.walk(fn) if isinstance(r, ast.Raise)]
+    verdict = None if not raises else (uses_ws and uses_ni and uses_dot and not other_ws)
+    ctx.decide("CTOR-KEYWORD", f"{MO}|Keyword.__init__|predicate", verdict,
+               f"the keyword validity predicate must use the reader's own tests: isnormalizedspace ({uses_ws}), HyReader.NON_IDENT ({uses_ni}), '.' ({uses_dot}), no other whitespace test ({not other_ws})", MO, k.lineno,
+               witness="Keyword('a b') or Keyword('a.b') succeeds although `:a b` / `:a.b` do not read as that keyword", detail="'.', whitespace, NON_IDENT")
+    np_ = [r for r in raises if any(a == "not from_parser" for a in pyq.atoms(r, mo.enclosing_func(r)))] if raises else []
+    imp2 = "from hy.reader.hy_reader import HyReader" in ktext and "from hy.reader.reader import isnormalizedspace" in ktext
+    ctx.check(imp2, "CTOR-KEYWORD", f"{MO}|Keyword.__init__|same objects", "the predicates are not the reader's own objects", MO, k.lineno, detail="HyReader.NON_IDENT, isnormalizedspace")
     for cn, text in (("String", "if brackets is not None and f']{brackets}]' in value:\n    raise ValueError(___)"), ("FString", "if brackets is not None and _string_in_node(f']{brackets}]', value):\n    raise ValueError(___)")):
         f = mo.func(f"{cn}.__new__")
         ctx.require(f is not None, f"{cn}.__new__ not found")
